@@ -21,6 +21,7 @@ def run(prog: Program, rep: Report, include_mixins: bool = True):
     r3b_raw_reader(prog, rep, fam)
     r4_dispatch(prog, rep, fam)
     r5_index(prog, rep, fam)
+    r6_derived(prog, rep, fam, include_mixins)
 
 
 # ---------------------------------------------------------------------------------------------- R1
@@ -501,3 +502,18 @@ def r5_index(prog, rep: Report, fam: Family):
         rep.check("C11.R5", rdr, "index-file-reader", good, "one int per line of the index file, unfiltered",
                   "index-file reader is not an unfiltered [int(line) for line in f]",
                   scenario="an index file selecting a subset/permutation is not honoured line by line")
+
+
+def r6_derived(prog, rep: Report, fam: Family, include_mixins: bool):
+    """a remembered cursor position / cached line must not survive a new handle (open, close, re-open after fork)"""
+    from .memo import rule_derived_state
+    lines = _lines_field(prog, fam)
+    known = {lines, fam.dirty_field(), data_path_field(prog, fam)}
+    rep.rule("C11.R6", "derived state of the line files is refreshed with its source: the file handle(s) are the primary state; any "
+             "other field that is written outside the constructor and read somewhere (a remembered cursor position, a cached "
+             "line, a read-ahead buffer) is re-assigned or cleared on every path of every public operation that installs another "
+             "handle or moves it (open, close, the re-open helper after a fork, reads)", floor=8)
+    for c in fam.line_classes:
+        prim = set(fam.handles[c.qual])
+        rule_derived_state(prog, rep, "C11.R6", c, prim, fam.entry_points(c, include_mixins), config=known | {fam.pid_field[c.qual]},
+                           declare=False)
